@@ -733,3 +733,18 @@ pub fn chains_multi(maxk: usize, max_inputs_long: u32) -> Vec<Universe> {
 pub fn late3x_oe() -> Vec<Universe> {
     late_gadget_full(3, true, true, None, false).into_iter().filter(|u| !u.label.split(':').nth(1).unwrap_or("").contains('A')).collect()
 }
+
+/// every full n-slot graph as a universe of its own: a chain step changes inputs and deletes outputs
+/// but not the graph (the graph-edit chains are in `slots`)
+pub fn slots_each_alone(n: usize) -> Vec<Universe> {
+    let mut out = Vec::new();
+    for ks in kind_vectors(n) {
+        for (i, g) in sub_graphs(&full_forward(&ks)).into_iter().filter(|g| g.n() == n).enumerate() {
+            out.push(Universe {
+                label: format!("alone{}:{}:{}", n, kind_label(&ks), i),
+                graphs: vec![g],
+            });
+        }
+    }
+    out
+}
